@@ -177,7 +177,25 @@ def c10(res):
                       "different shapes; a case = one history", exhaustive=False)
 
 
-CHECKS = {"C01": c01, "C02": c02, "C04": c04, "C10": c10, "C20": c20}
+def c15(res):
+    wd = workdir("C15")
+    res.models.append(model_check("MC_Bytecode", "MC_Bytecode.cfg", wd, workers=4))
+    progs = gen_programs(res, wd)
+    trace = os.path.join(wd, "trace.ndjson")
+    if not run_recorder(res, "c15", [progs, res.tier, trace], wd):
+        return res.finish("recorder crashed")
+    n, rej = validate("Trace_C15", trace, wd, timeout=3000)
+    res.validated = n - len(rej)
+    res.evaluations = n
+    res.samples = sample_lines(trace, maxlen=3000)
+    res.add_rejects(trace, rej, lambda r, f: "n=%s fails=%s" % (r.get("n"), "+".join(f)))
+    res.assumptions = ["the WGSL interpreter of the same format is not reachable (no GPU); the format documentation is the reference"]
+    return res.finish("programs from the Alloc.tla generator and seeded long programs at budgets 3, 4, 5, 8, 12 (memory traffic) and 255; "
+                      "a case = one program's bytecode words decoded per the documentation by the TLA+ decoder and executed by an "
+                      "independent numeric executor")
+
+
+CHECKS = {"C01": c01, "C02": c02, "C04": c04, "C10": c10, "C15": c15, "C20": c20}
 
 
 def replay(prop, path):
